@@ -207,6 +207,11 @@ def kernel_obligations(ctx, files):
                 if not re.search(r'V\[%s\]=%s\(%s\[%s\],%s%s\);' % (IDX[k], vf, grid, IDX[k], nu, extra), nb) or \
                    not re.search(r'VInt\[%s\]=%s\(%sInt\[%s\],%s%s\);' % (IDX[k], vf, AX[k], IDX[k], nu, extra), nb):
                     raise cexpr.Refuse('V / VInt wiring')
+                # --- the per-line quantities are recomputed unconditionally for every line: the only conditionals in a
+                #     kernel are the two corner guards
+                nif = len(re.findall(r'\bif\(', nb))
+                if nif != 2:
+                    raise cexpr.Refuse('%d conditionals in the kernel body, expected exactly the two corner guards' % nif)
                 # --- shared helpers called on this axis' grid with this axis' length
                 for call in ('compute_dx(%s,%s,%s);' % (grid, dimv, dxn), 'compute_dfactor(%s,%s,dfactor);' % (dxn, dimv), 'compute_xInt(%s,%s,%sInt);' % (grid, dimv, AX[k]),
                              'compute_delj(%s,MInt,VInt,%s,delj,use_delj_trick);' % (dxn, dimv), 'compute_abc_nobc(%s,dfactor,delj,MInt,V,dt,%s,a,b,c);' % (dxn, dimv)):
